@@ -182,7 +182,7 @@ def importStep (env : Env) (path : Path) (st : IState) (step : IStep) : IState :
   | .importUsingSpec => match st.pkg with
     | some (pkgRoot, key) => match findSpecIn env.fs pkgRoot (key.getLast?.getD "") with
       | .file p => let r := loadAs env st.w key p; { st with w := r.1, loaded := some r.2 }
-      | .namespace => { st with result := some ({ st.w with modules := st.w.modules ++ [(key, { src := none, ns := [] })] }, none) }
+      | .namespace => { st with result := some (st.w, none) }
       | .notFound =>
         if isPySource path then let r := loadAs env st.w key path; { st with w := r.1, loaded := some r.2 }
         else st
